@@ -36,8 +36,6 @@ Fixpoint picks_n (n : nat) (s : sstate) : list Z * sstate :=
            let '(l, s2) := picks_n k s1 in (pick_id b :: l, s2)
   end.
 
-Fixpoint count_id (id : Z) (l : list Z) : Z :=
-  match l with [] => 0 | x :: t => (if Z.eqb x id then 1 else 0) + count_id id t end.
 
 (* counts for ids 1..n *)
 Fixpoint counts_upto (n : nat) (l : list Z) : list Z :=
@@ -72,8 +70,6 @@ Fixpoint flat_obs (l : list (list Z)) : list Z :=
 Definition ids (pool : list backend) : list Z := map bid pool.
 Definition flagged_ids (pool : list backend) : list Z := map bid (healthy pool).
 
-Fixpoint memZ (x : Z) (l : list Z) : bool :=
-  match l with [] => false | y :: t => Z.eqb x y || memZ x t end.
 
 Fixpoint nodupb (l : list Z) : bool :=
   match l with [] => true | x :: t => negb (memZ x t) && nodupb t end.
@@ -121,17 +117,18 @@ Definition wrr_exact_ok (pool : list backend) (stretch : list Z) : bool :=
   else let win := firstn (Z.to_nat w) stretch in
        forallb (fun b => Z.eqb (count_id (bid b) win) (bweight b)) pool.
 
+(* every window of n_E consecutive picks contains each of the n_E eligible backends exactly once *)
 Definition rr_window_ok (pool : list backend) (stretch : list Z) : bool :=
-  let n := zlen pool in
+  let n := zlen (healthy pool) in
   if zlen stretch <? n then true
-  else let win := firstn (Z.to_nat n) stretch in nodupb win && all_in win (ids pool).
+  else let win := firstn (Z.to_nat n) stretch in nodupb win && all_in win (flagged_ids pool).
 
 Definition all_flagged (pool : list backend) : bool := forallb bflag pool.
 
 Definition lc_min_ok (pool : list backend) (p : Z) : bool :=
   match find_id p pool with
-  | None => is_nil pool
-  | Some b => forallb (fun x => (bactive b <=? bactive x)) pool
+  | None => is_nil (healthy pool)
+  | Some b => bflag b && forallb (fun x => (bactive b <=? bactive x)) (healthy pool)
   end.
 
 Definition distinct_weights (pool : list backend) : bool :=
@@ -202,7 +199,7 @@ Definition sm_step (m : smon) (o : sop) (ob : list Z) : smon :=
       (* concurrent round-robin picks: n = k * len(pool) picks must give every backend exactly k *)
       let pool := spool s in
       let len := zlen pool in
-      let ok := if (0 <? len) && Z.eqb (n mod len) 0 then
+      let ok := if (0 <? len) && Z.eqb (n mod len) 0 && all_flagged pool then
                   forallb (fun b => Z.eqb (nth (Z.to_nat (bid b - 1)) ob 0) (n / len)) pool
                 else true in
       let s' := snd (picks_n (Z.to_nat n) s) in
